@@ -15,3 +15,30 @@ def dpt_from_knx_declared_errors(T, payload):
         T.from_knx(payload)
     except (CouldNotParseTelegram, ConversionError):
         pass
+
+
+# ----------------------------------------------------------------------------- eager decoding in the consumer
+
+from xknx.core.group_address_dpt import GroupAddressDPT  # noqa: E402
+from xknx.telegram import GroupAddress, Telegram  # noqa: E402
+from xknx.telegram.apci import GroupValueResponse, GroupValueWrite  # noqa: E402
+from pyvc.api import Bool  # noqa: E402
+
+
+@lemma("C07", params=dict(payload=PAYLOAD, response=Bool(), seen_before=Bool()), family=lambda: [dict(T=c) for c in dpt_classes()])
+def set_decoded_data_never_raises(T, payload, response, seen_before):
+    """The call the telegram consumer makes *before* its own error handling: for a group address
+    configured with any transcoder T and any payload it returns normally; decoded_data is then either
+    unset (decoding failed with a declared error, address remembered) or (T, value)."""
+    table = GroupAddressDPT()
+    dst = GroupAddress(0x0901)
+    table._ga_dpts[dst.raw] = T
+    if seen_before:
+        table.ga_decoding_error.add(dst)
+    apci = GroupValueResponse(payload) if response else GroupValueWrite(payload)
+    telegram = Telegram(destination_address=dst, payload=apci)
+    table.set_decoded_data(telegram)
+    if telegram.decoded_data is None:
+        assert dst in table.ga_decoding_error
+    else:
+        assert telegram.decoded_data.transcoder is T
